@@ -103,6 +103,16 @@ func parseScript(line string) []dtok {
 
 const dirApp = 0x10
 
+// releasePause grants the pause point after the Unlock of a flag read, if thread t sits there.
+func (r *runner) releasePause(t int) {
+	r.w.mu.Lock()
+	p := r.w.waiting[t]
+	r.w.mu.Unlock()
+	if p != nil && p.kind == "P" {
+		r.grant(t, p)
+	}
+}
+
 // runDirected forces one model trace.
 func runDirected(line string) string {
 	d := &directed{script: parseScript(line)}
@@ -118,13 +128,14 @@ script:
 	for i, e := range d.script {
 		d.pos = i
 		switch {
-		case e.kind == "AP" || e.kind == "TK" || e.kind == "TT":
+		case e.kind == "TK" || e.kind == "TT":
 			// hidden events: nothing to do at the interfaces
 		case e.kind == "CA":
 			if !w.cancelled {
 				r.doCancel()
 			}
 		case e.kind == "DN":
+			r.releasePause(e.t)
 			if !r.isDone(e.t) {
 				r.waitEvt(e.t, curTimeout())
 				if !r.isDone(e.t) {
@@ -132,17 +143,20 @@ script:
 					break script
 				}
 			}
+		case e.kind == "AP":
+			// the loop leaves the Unlock that ended the flag read: release the pause point
+			r.releasePause(e.t)
 		case e.kind == "WK":
+			// the real channel hands the token over as soon as the loop is parked; the Wake may
+			// therefore already be logged
 			m := w.msgs[e.t]
-			if !m.token || !m.gotWake || !r.deliver(e.t, m.wakeOut) {
+			r.releasePause(e.t)
+			if m.token {
+				r.syncWake(e.t)
+			}
+			if m.token || !m.gotWake {
 				followed = false
 				break script
-			}
-			m.token = false
-			w.emit(fmt.Sprintf("WK.%x", e.t))
-			r.setParked(e.t, false)
-			if !r.waitEvt(e.t, curTimeout()) {
-				r.setParked(e.t, true)
 			}
 		case e.kind == "AC":
 			m := w.msgs[e.t]
@@ -176,9 +190,8 @@ script:
 				mid = e.m
 				w.emit(fmt.Sprintf("SF.%x.%x.%s", dirApp, e.m, b01(e.ok)))
 			case "WS":
-				w.msgs[e.m].token = true
 				mid = 0
-				w.emit(fmt.Sprintf("WS.%x.%x", dirApp, e.m))
+				r.wakeSend(dirApp, e.m)
 			case "OF":
 				app.offering = e.m
 				w.emit(fmt.Sprintf("OF.%x.%x", dirApp, e.m))
@@ -187,6 +200,7 @@ script:
 				w.emit(fmt.Sprintf("OA.%x", dirApp))
 			}
 		case pointKind[e.kind]:
+			r.releasePause(e.t)
 			r.waitEvt(e.t, curTimeout())
 			w.mu.Lock()
 			p := w.waiting[e.t]
@@ -229,8 +243,7 @@ script:
 		w.emit(fmt.Sprintf("OA.%x", dirApp))
 	}
 	if mid != 0 {
-		w.msgs[mid].token = true
-		w.emit(fmt.Sprintf("WS.%x.%x", dirApp, mid))
+		r.wakeSend(dirApp, mid)
 	}
 	if w.owner == dirApp {
 		w.owner = 0
